@@ -9,16 +9,22 @@ EXTENDS Opts, Json, IOUtils
 CONSTANT DumpCases
 R == INSTANCE Req
 Tri == {"absent", "true", "false"}
-Lattice == [macro : {"entrait", "entrait_export"}, feature : BOOLEAN, target : {"fn", "mod", "trait"},
+\* "fnconc": a fn with a concrete dependency - for the options it is a fn; its generated trait additionally carries
+\* `#[::entrait::entrait(unimock = false, mockall = false)]`, i.e. a NESTED trait-mode invocation with both mock kinds off
+Kind(t) == IF t = "fnconc" THEN "fn" ELSE t
+Lattice == [macro : {"entrait", "entrait_export"}, feature : BOOLEAN, target : {"fn", "fnconc", "mod", "trait"},
             unimock : Tri, mock_api : {"absent", "present"}, mockall : Tri, export : Tri]
 TriOpt(k, v) == IF v = "absent" THEN <<>> ELSE IF v = "true" THEN <<Bare(k)>> ELSE <<Eq(k, "false")>>
 OptsOf(p) == TriOpt("unimock", p.unimock) \o (IF p.mock_api = "present" THEN <<Eq("mock_api", "Mk")>> ELSE <<>>)
              \o TriOpt("mockall", p.mockall) \o TriOpt("export", p.export)
 AttrOf(p) == [lead |-> IF p.target = "trait" THEN "" ELSE "pub T", opts |-> OptsOf(p), trail |-> ""]
-FE(p) == FrontEnd(p.target, AttrOf(p), p.macro, p.feature)
+FE(p) == FrontEnd(Kind(p.target), AttrOf(p), p.macro, p.feature)
+\* the nested invocation on the generated trait (the facade's `entrait` name: the variant follows the feature)
+NestedFE(p) == FrontEnd("trait", [lead |-> "", opts |-> <<Eq("unimock", "false"), Eq("mockall", "false")>>, trail |-> ""], "entrait", p.feature)
 PredObs(p) == LET f == FE(p) IN
   [ err |-> f.err, expanded |-> f.err = "",
-    unimock |-> f.err = "" /\ UnimockAttr(p.target, f.opts), mockall |-> f.err = "" /\ MockallAttr(f.opts),
+    unimock |-> f.err = "" /\ (UnimockAttr(Kind(p.target), f.opts) \/ (p.target = "fnconc" /\ UnimockAttr("trait", NestedFE(p).opts))),
+    mockall |-> f.err = "" /\ (MockallAttr(f.opts) \/ (p.target = "fnconc" /\ MockallAttr(NestedFE(p).opts))),
     ugated |-> Gated(f.opts), mgated |-> Gated(f.opts) ]
 \* what a build shows, predicted from the attributes
 WithBuilds(p, o) == (o @@ [built |-> TRUE, nt_unimock |-> o.unimock /\ ~o.ugated, t_unimock |-> o.unimock,
@@ -27,11 +33,11 @@ WithBuilds(p, o) == (o @@ [built |-> TRUE, nt_unimock |-> o.unimock /\ ~o.ugated
 VARIABLES p, st, pos, pc, out
 vars == <<p, st, pos, pc, out>>
 Init == /\ p \in Lattice
-        /\ LET lr == LeadResult(p.target, AttrOf(p)) IN
+        /\ LET lr == LeadResult(Kind(p.target), AttrOf(p)) IN
            /\ st = [opts |-> NoOpts, err |-> lr.err, impltrait |-> lr.impltrait] /\ pos = 1 + lr.skip
         /\ pc = "opts" /\ out = [unimock |-> FALSE, mockall |-> FALSE, gated |-> FALSE]
 ParseOneOpt == /\ pc = "opts" /\ pos <= Len(OptsOf(p))
-               /\ st' = Step(p.target, st, OptsOf(p)[pos]) /\ pos' = pos + 1 /\ UNCHANGED <<p, pc, out>>
+               /\ st' = Step(Kind(p.target), st, OptsOf(p)[pos]) /\ pos' = pos + 1 /\ UNCHANGED <<p, pc, out>>
 EndOfOpts   == /\ pc = "opts" /\ pos > Len(OptsOf(p))
                /\ st' = IF p.target = "trait" THEN TraitSemantic(st) ELSE st
                /\ pc' = "fallbacks" /\ UNCHANGED <<p, pos, out>>
@@ -40,9 +46,14 @@ ApplyVariantFallbacks ==
                /\ st' = [st EXCEPT !.opts = IF st.err = "" THEN ApplyFallbacks(@, Variant(p.macro, p.feature)) ELSE @]
                /\ pc' = (IF st.err = "" THEN "gen" ELSE "rejected") /\ UNCHANGED <<p, pos, out>>
 GenTraitDef == /\ pc = "gen"
-               /\ out' = [unimock |-> UnimockAttr(p.target, st.opts), mockall |-> MockallAttr(st.opts), gated |-> Gated(st.opts)]
+               /\ out' = [unimock |-> UnimockAttr(Kind(p.target), st.opts), mockall |-> MockallAttr(st.opts), gated |-> Gated(st.opts)]
+               /\ pc' = (IF p.target = "fnconc" THEN "nested" ELSE "done") /\ UNCHANGED <<p, st, pos>>
+\* the nested trait-mode invocation adds whatever ITS options enable (nothing: both are explicitly false)
+NestedEntraitOnTrait ==
+               /\ pc = "nested"
+               /\ out' = [out EXCEPT !.unimock = @ \/ UnimockAttr("trait", NestedFE(p).opts), !.mockall = @ \/ MockallAttr(NestedFE(p).opts)]
                /\ pc' = "done" /\ UNCHANGED <<p, st, pos>>
-Next == ParseOneOpt \/ EndOfOpts \/ ApplyVariantFallbacks \/ GenTraitDef
+Next == ParseOneOpt \/ EndOfOpts \/ ApplyVariantFallbacks \/ GenTraitDef \/ NestedEntraitOnTrait
 Spec == Init /\ [][Next]_vars
 
 StepwiseIsPred == pc = "done" => out.unimock = PredObs(p).unimock /\ out.mockall = PredObs(p).mockall /\ out.gated = PredObs(p).ugated
@@ -50,6 +61,6 @@ StepwiseIsPred == pc = "done" => out.unimock = PredObs(p).unimock /\ out.mockall
 OnlyExportOnTraitRejected == pc = "rejected" <=> (pc \in {"rejected"} /\ p.target = "trait" /\ p.export # "absent")
 Refines == pc = "done" => R!C10_Fail(p, WithBuilds(p, PredObs(p))) = {}
 
-CaseRec(q) == [ in |-> q, text |-> AttrText(q.target, AttrOf(q)), pred |-> PredObs(q) ]
+CaseRec(q) == [ in |-> q, text |-> AttrText(Kind(q.target), AttrOf(q)), pred |-> PredObs(q) ]
 ASSUME DumpCases => ndJsonSerialize(IOEnv.OUT, SetToSeq({ CaseRec(q) : q \in Lattice }))
 =============================================================================
